@@ -286,6 +286,17 @@ fn render_line(
             }
         }
     }
+
+    // `--- - item` with `space_after_description_dash = false` would become `---- item`, a
+    // different kind of comment: a body starting with `-` keeps one blank after the dashes.
+    let text_of = |doc: &DocIR| match doc {
+        DocIR::Text(text) => text.to_string(),
+        DocIR::SourceToken(token) => token.text().to_string(),
+        _ => String::new(),
+    };
+    if docs.len() > 1 && text_of(&docs[0]).ends_with('-') && text_of(&docs[1]).starts_with('-') {
+        docs.insert(1, ir::space());
+    }
     docs
 }
 
